@@ -112,4 +112,26 @@ def Reader.run : Reader → List Op → Reader × List Res
     let (r'', xs) := Reader.run r' ops
     (r'', x :: xs)
 
+/-- Read and Close, no Reset. -/
+def Op.noReset : Op → Bool
+  | .reset _ => false
+  | _ => true
+
+/-- the bytes a call handed to the caller. -/
+def Res.bytes : Res → List UInt8
+  | .read out _ => out
+  | _ => []
+
+/-- drive `Read` with a schedule of buffer lengths (the last entry repeats) until it returns an
+    error: the delivered bytes, that error, the final state (`Impl.runA` / `Impl.runFrom` at the API). -/
+def Reader.drive : Nat → Reader → List Nat → Array UInt8 → Array UInt8 × Option AErr × Reader
+  | 0, r, _, acc => (acc, none, r)
+  | fuel+1, r, sched, acc =>
+    let n := sched.headD 4096
+    let sched' := if sched.length > 1 then sched.tail else sched
+    let (r', out, e) := r.read n
+    match e with
+    | some err => (acc ++ out.toArray, some err, r')
+    | none => Reader.drive fuel r' sched' (acc ++ out.toArray)
+
 end Compress.Bzip2.ReaderApi
